@@ -76,7 +76,7 @@ impl Ev {
             Ev::Wr(s) => format!("make-writable({})", SL[s]),
             Ev::Reopen(s) => format!("close+reopen({})", SL[s]),
             Ev::Fault => "next-poll-fails(EINTR)".into(),
-            Ev::Idle => "let-12ms-pass".into(),
+            Ev::Idle => "let-15ms-pass".into(),
         }
     }
     fn from_s(s: &str) -> Option<Ev> {
@@ -93,7 +93,7 @@ impl Ev {
         }
         match s {
             "next-poll-fails(EINTR)" => Some(Ev::Fault),
-            "let-12ms-pass" => Some(Ev::Idle),
+            "let-15ms-pass" => Some(Ev::Idle),
             _ => None,
         }
     }
@@ -398,7 +398,7 @@ pub fn run_case(c: &Case) -> (Vec<Viol>, BTreeMap<String, u64>) {
                 turn(&mut lp);
             }
             Ev::Idle => {
-                for _ in 0..4 {
+                for _ in 0..5 {
                     turn(&mut lp);
                 }
             }
@@ -421,6 +421,9 @@ pub fn run_case(c: &Case) -> (Vec<Viol>, BTreeMap<String, u64>) {
     open_coroutine_core::verif::set_observe_hook(None);
     open_coroutine_core::verif::set_choice_hook(None);
 
+    if std::env::var_os("SEQX_VERBOSE").is_some() {
+        crate::runner::child_emit(json!({"t":"debug","done": format!("{:?}", st.done), "hits": format!("{:?}", st.hits), "readies": format!("{readies:?}"), "cur": format!("{:?}", st.cur)}));
+    }
     // ------------------------------------------------------------------ judge
     let mut viols: Vec<Viol> = Vec::new();
     let mut wit: BTreeMap<String, u64> = BTreeMap::new();
@@ -590,7 +593,7 @@ pub fn run(tier: &str, rep: &mut Report) {
     let cs = cases(tier);
     let (l0, l1, e) = bounds(tier);
     rep.bounds = json!({"descriptors": 2, "coroutines": "1..=2", "program_steps": ["read(A|B)", "write(A|B) into a full socket"], "steps_of_coroutine_0": l0, "steps_of_coroutine_1": l1,
-        "driver_events": ["make-readable(slot)", "make-writable(slot)", "close+reopen(slot) through the hooked close", "next-poll-fails(EINTR)", "let-12ms-pass"], "driver_sequence_length": format!("0..={e}"),
+        "driver_events": ["make-readable(slot)", "make-writable(slot)", "close+reopen(slot) through the hooked close", "next-poll-fails(EINTR)", "let-15ms-pass"], "driver_sequence_length": format!("0..={e}"),
         "symmetry": "coroutine 0 starts on slot A", "start_states": PRE, "socket_timeouts": "every case whose driver lets time pass also runs with SO_RCVTIMEO = SO_SNDTIMEO = 25 ms on both descriptors", "cases": cs.len()});
     rep.require(&["woken_at_the_readiness_instant", "resumes_checked_against_own_descriptor", "cases_with_two_coroutines", "reopens_applied", "poll_failures_injected", "calls_that_gave_up_on_their_socket_timeout"]);
     for c in cs.iter().step_by((cs.len() / 4).max(1)).take(4) {
